@@ -203,7 +203,9 @@ func Open(ctx context.Context, S3 S3Interface, cfg Config, opts OpenOptions, whe
 	persists := []mast.Persist{rootPersist}
 	if opts.OnlyVersions != nil {
 		versionsToLoad = opts.OnlyVersions
-		persists = []mast.Persist{mergedPersist, rootPersist}
+		// look where Commit moves a version FROM first: it is stored under merged/
+		// before it is deleted from current/, so it is never missing from both
+		persists = []mast.Persist{rootPersist, mergedPersist}
 		skipUnreadable = false
 	} else {
 		versionsToLoad, err = listRoots(ctx, S3, rootPersist)
